@@ -55,66 +55,135 @@ def _dominance_default(ctx, name):
 # ------------------------------------------------------------------------------------------------
 # R10.1 — Dominance::partial_cmp: loop transfer table (9 cases) + value stage (9 cases) + no-value exit
 # ------------------------------------------------------------------------------------------------
-def r_partial_cmp(ctx, rule='R10.1'):
-    b = _dominance_default(ctx, 'partial_cmp')
-    gc = b.calls_to('Dominance::get_coordinate')
-    cm = b.calls_to('Ord::cmp')
-    nx = b.calls_to('Iterator::next')
-    uv = b.calls_to('Dominance::use_value')
-    if not (ctx.floor(rule, 'get_coordinate', b, len(gc), 2, 'get_coordinate calls') and ctx.floor(rule, 'cmp', b, len(cm), 2, 'Ord::cmp calls')
-            and ctx.floor(rule, 'loop', b, len(nx), 1, 'coordinate loop') and ctx.floor(rule, 'use_value', b, len(uv), 1, 'use_value call')):
-        return
-    # identify the two comparisons
-    ccmp = vcmp = None
-    for (bb, t) in cm:
-        tt = b.origin.call(t, b.term_point(bb))
-        a0, a1 = tt[2]
-        if M.is_call(a0, 'Dominance::get_coordinate') and M.is_call(a1, 'Dominance::get_coordinate'):
-            ccmp = (bb, tt)
-        elif M.is_param(a0) and M.is_param(a1):
-            vcmp = (bb, tt)
-    if ccmp is None or vcmp is None:
-        raise MissingAnchor('coordinate / value comparison of partial_cmp')
-    (cbb, ct) = ccmp
+def _partial_cmp_fold_form(ctx, rule, b):
+    """coordinate stage written as (0..nb_dimensions(a)).try_fold(Equal, |acc, i| match (acc, cmp(coord(a,i), coord(b,i))) { .. => None / Some(next) })?
+    -> (closure, cmp block in the closure, cmp term, accumulator predicate inside the closure, loop_paths, try_fold point in b) or None"""
+    tf = b.calls_to('try_fold')
+    if len(tf) != 1:
+        return None
+    (tbb, tt_) = tf[0]
+    tp = b.term_point(tbb)
+    a = [b.origin.operand(x, tp) for x in tt_['args']]
+    if len(a) != 3 or not (isinstance(a[2], tuple) and a[2] and a[2][0] == 'closure' and a[2][1] in ctx.F.bodies):
+        return None
+    c = ctx.F.bodies[a[2][1]]
+    ctx.analysed_bodies.add(c.name)
+    cm = [(bb, c.origin.call(t, c.term_point(bb))) for (bb, t) in c.calls_to('Ord::cmp')]
+    cm = [(bb, t) for (bb, t) in cm if M.is_call(t[2][0], 'Dominance::get_coordinate') and M.is_call(t[2][1], 'Dominance::get_coordinate')]
+    if len(cm) != 1:
+        return None
+    (cbb, ct) = cm[0]
     a0, a1 = ct[2]
-    good = M.is_param(a0[2][1], index=1) and M.is_param(a1[2][1], index=3) and a0[2][2] == a1[2][2] and M.contains(a0[2][2], lambda x: M.is_call(x, 'Iterator::next'))
-    ctx.check(good, rule, 'coordinate-operands', b, b.loc(cbb), 'coordinates are compared as cmp(coord(a, i), coord(b, i)) for the same i, in that operand order',
+    is_i = lambda x: M.is_param(x, index=2) and x[1] == c.name
+    good = M.is_param(a0[2][1], index=1) and a0[2][1][1] == b.name and M.is_param(a1[2][1], index=3) and a1[2][1][1] == b.name and a0[2][2] == a1[2][2] and is_i(a0[2][2])
+    ctx.check(good, rule, 'coordinate-operands', c, c.loc(cbb), 'coordinates are compared as cmp(coord(a, i), coord(b, i)) for the same i, in that operand order (fold form)',
               'the coordinate comparison is %s' % M.show(ct)[:240])
-    rng = [x for x in M.walk(a0[2][2]) if isinstance(x, tuple) and x and x[0] == 'aggr' and x[1].endswith('Range')]
-    good = bool(rng) and M.is_const(dict(rng[0][3])['start'], 0) and M.is_call(dict(rng[0][3])['end'], 'Dominance::nb_dimensions')
-    ctx.check(good, rule, 'coordinate-range', b, b.loc(cbb), 'i ranges over 0..nb_dimensions', 'the coordinate index does not range over 0..nb_dimensions(a)')
-    (vbb, vt) = vcmp
-    ctx.check(M.is_param(vt[2][0], index=2) and M.is_param(vt[2][1], index=4), rule, 'value-operands', b, b.loc(vbb), 'values are compared as cmp(val_a, val_b)', 'the value comparison is %s' % M.show(vt))
-    # accumulator variable
-    accs = [a[1] for bbk in b.live_blocks() if b.term(bbk)['k'] == 'switch' for (tb, lab) in b.succ(bbk) for a in M.lit_atoms(M.edge_literal(b, bbk, lab))
-            if a[0] == 'in' and isinstance(a[1], tuple) and a[1][0] == 'var']
-    if not accs:
-        raise MissingAnchor('accumulator variable of partial_cmp')
-    acc = accs[0]
-    acc_local = acc[2]
-    init = [b.origin._def_term(acc_local, d, 0) for d in b.defs()[acc_local] if d[2] == 'whole' and d[0] in [0]]
-    alld = b.defs()[acc_local]
-    first = sorted(alld, key=lambda d: (d[0], d[1]))[0]
-    ctx.check(_ord_const(b.origin._def_term(acc_local, first, 0)) == 'Equal', rule, 'accumulator-init', b, b.loc(first[0], first[1]), 'the accumulator starts at Equal',
-              'the accumulator does not start at Ordering::Equal')
-    nxp = b.term_point(nx[0][0])
-    # ---- loop stage: from the coordinate comparison to the next iteration / a return ------------------
-    # decided by case analysis over the 3 x 3 values of (accumulator, comparison): for each case, the feasible paths and what they do
-    start = b.after(b.term_point(cbb))[0]
+    rng = [x for x in M.walk(a[0]) if isinstance(x, tuple) and x and x[0] == 'aggr' and x[1].endswith('Range')]
+    good = bool(rng) and M.is_const(dict(rng[0][3])['start'], 0) and M.is_call(dict(rng[0][3])['end'], 'Dominance::nb_dimensions') and not M.contains(a[0], lambda x: M.is_call(x, 'skip', 'take', 'filter', 'step_by', 'rev'))
+    ctx.check(good, rule, 'coordinate-range', b, b.loc(tbb), 'i ranges over 0..nb_dimensions (try_fold over the whole range)', 'the fold does not range over 0..nb_dimensions(a)')
+    ctx.check(_ord_const(a[1]) == 'Equal', rule, 'accumulator-init', b, b.loc(tbb), 'the accumulator starts at Equal', 'the fold does not start at Ordering::Equal')
+    acc_c = lambda t: M.is_param(t, index=1) and t[1] == c.name
+    start = c.after(c.term_point(cbb))[0]
     loop_paths = []
-    for (edges, blocks, end) in M.enumerate_paths(b, start, stops=[nxp]):
-        atoms = M.path_atoms(b, edges)
+    for (edges, blocks, end) in M.enumerate_paths(c, start):
+        atoms = M.path_atoms(c, edges)
         if not M.consistent(atoms):
             continue
-        if end == nxp:
-            loop_paths.append((atoms, 'continue', M.path_local_term(b, blocks, end, acc_local, start)))
-        else:
-            for (conds, leaf) in M.cases(_path_ret(b, blocks, end)):
-                loop_paths.append((list(atoms) + [a for c_ in conds for a in M.lit_atoms(c_)], 'return', leaf))
+        for (conds, leaf) in M.cases(_path_ret(c, blocks, end)):
+            at = list(atoms) + [x for c_ in conds for x in M.lit_atoms(c_)]
+            if leaf == M.MK_NONE:
+                loop_paths.append((at, 'return', leaf))           # the fold stops, `?` hands None on
+            elif isinstance(leaf, tuple) and leaf[:3] == ('aggr', M.OPTION, 'Some'):
+                loop_paths.append((at, 'continue', leaf[3][0][1]))
+            else:
+                loop_paths.append((at, 'return', leaf))
+    return (c, cbb, ct, acc_c, loop_paths, tp)
+
+
+def r_partial_cmp(ctx, rule='R10.1'):
+    b = _dominance_default(ctx, 'partial_cmp')
+    fold = _partial_cmp_fold_form(ctx, rule, b) if not b.calls_to('Dominance::get_coordinate') else None
+    cm = b.calls_to('Ord::cmp')
+    uv = b.calls_to('Dominance::use_value')
+    if fold is not None:
+        (fc, cbb, ct, acc_loop, loop_paths, decided_pt) = fold
+        if not (ctx.floor(rule, 'cmp', b, len(cm), 1, 'Ord::cmp call (values)') and ctx.floor(rule, 'use_value', b, len(uv), 1, 'use_value call')):
+            return
+        vcmp = None
+        for (bb, t) in cm:
+            tt = b.origin.call(t, b.term_point(bb))
+            if M.is_param(tt[2][0]) and M.is_param(tt[2][1]):
+                vcmp = (bb, tt)
+        if vcmp is None:
+            raise MissingAnchor('value comparison of partial_cmp')
+        (vbb, vt) = vcmp
+        ctx.check(M.is_param(vt[2][0], index=2) and M.is_param(vt[2][1], index=4), rule, 'value-operands', b, b.loc(vbb), 'values are compared as cmp(val_a, val_b)', 'the value comparison is %s' % M.show(vt))
+        # the accumulator seen by the value stage: the payload the fold handed over through `?`
+        accs = [a[1] for bbk in b.live_blocks() if b.term(bbk)['k'] == 'switch' for (tb, lab) in b.succ(bbk) for a in M.lit_atoms(M.edge_literal(b, bbk, lab))
+                if a[0] == 'in' and isinstance(a[1], tuple) and a[1] != vt and M.contains(a[1], lambda x: M.is_call(x, 'try_fold')) and (a[2] & frozenset(ORD))]
+        if not accs:
+            raise MissingAnchor('accumulator handed over by the fold of partial_cmp')
+        acc = accs[0]
+        loop_body, loop_where = fc, cbb
+    else:
+        gc = b.calls_to('Dominance::get_coordinate')
+        nx = b.calls_to('Iterator::next')
+        if not (ctx.floor(rule, 'get_coordinate', b, len(gc), 2, 'get_coordinate calls') and ctx.floor(rule, 'cmp', b, len(cm), 2, 'Ord::cmp calls')
+                and ctx.floor(rule, 'loop', b, len(nx), 1, 'coordinate loop') and ctx.floor(rule, 'use_value', b, len(uv), 1, 'use_value call')):
+            return
+        # identify the two comparisons
+        ccmp = vcmp = None
+        for (bb, t) in cm:
+            tt = b.origin.call(t, b.term_point(bb))
+            a0, a1 = tt[2]
+            if M.is_call(a0, 'Dominance::get_coordinate') and M.is_call(a1, 'Dominance::get_coordinate'):
+                ccmp = (bb, tt)
+            elif M.is_param(a0) and M.is_param(a1):
+                vcmp = (bb, tt)
+        if ccmp is None or vcmp is None:
+            raise MissingAnchor('coordinate / value comparison of partial_cmp')
+        (cbb, ct) = ccmp
+        a0, a1 = ct[2]
+        good = M.is_param(a0[2][1], index=1) and M.is_param(a1[2][1], index=3) and a0[2][2] == a1[2][2] and M.contains(a0[2][2], lambda x: M.is_call(x, 'Iterator::next'))
+        ctx.check(good, rule, 'coordinate-operands', b, b.loc(cbb), 'coordinates are compared as cmp(coord(a, i), coord(b, i)) for the same i, in that operand order',
+                  'the coordinate comparison is %s' % M.show(ct)[:240])
+        rng = [x for x in M.walk(a0[2][2]) if isinstance(x, tuple) and x and x[0] == 'aggr' and x[1].endswith('Range')]
+        good = bool(rng) and M.is_const(dict(rng[0][3])['start'], 0) and M.is_call(dict(rng[0][3])['end'], 'Dominance::nb_dimensions')
+        ctx.check(good, rule, 'coordinate-range', b, b.loc(cbb), 'i ranges over 0..nb_dimensions', 'the coordinate index does not range over 0..nb_dimensions(a)')
+        (vbb, vt) = vcmp
+        ctx.check(M.is_param(vt[2][0], index=2) and M.is_param(vt[2][1], index=4), rule, 'value-operands', b, b.loc(vbb), 'values are compared as cmp(val_a, val_b)', 'the value comparison is %s' % M.show(vt))
+        # accumulator variable
+        accs = [a[1] for bbk in b.live_blocks() if b.term(bbk)['k'] == 'switch' for (tb, lab) in b.succ(bbk) for a in M.lit_atoms(M.edge_literal(b, bbk, lab))
+                if a[0] == 'in' and isinstance(a[1], tuple) and a[1][0] == 'var']
+        if not accs:
+            raise MissingAnchor('accumulator variable of partial_cmp')
+        acc = accs[0]
+        acc_local = acc[2]
+        alld = b.defs()[acc_local]
+        first = sorted(alld, key=lambda d: (d[0], d[1]))[0]
+        ctx.check(_ord_const(b.origin._def_term(acc_local, first, 0)) == 'Equal', rule, 'accumulator-init', b, b.loc(first[0], first[1]), 'the accumulator starts at Equal',
+                  'the accumulator does not start at Ordering::Equal')
+        nxp = b.term_point(nx[0][0])
+        # ---- loop stage: from the coordinate comparison to the next iteration / a return ------------------
+        # decided by case analysis over the 3 x 3 values of (accumulator, comparison): for each case, the feasible paths and what they do
+        start = b.after(b.term_point(cbb))[0]
+        loop_paths = []
+        for (edges, blocks, end) in M.enumerate_paths(b, start, stops=[nxp]):
+            atoms = M.path_atoms(b, edges)
+            if not M.consistent(atoms):
+                continue
+            if end == nxp:
+                loop_paths.append((atoms, 'continue', M.path_local_term(b, blocks, end, acc_local, start)))
+            else:
+                for (conds, leaf) in M.cases(_path_ret(b, blocks, end)):
+                    loop_paths.append((list(atoms) + [a for c_ in conds for a in M.lit_atoms(c_)], 'return', leaf))
+        acc_loop = lambda t: t == acc
+        decided_pt = b.term_point(cbb)
+        loop_body, loop_where = b, cbb
     bad = []
     for x in ORD:
         for y in ORD:
-            env = [(lambda t: t == acc, x), (lambda t, ct=ct: t == ct, y)]
+            env = [(acc_loop, x), (lambda t, ct=ct: t == ct, y)]
             outs = set()
             for (atoms, kind, term) in loop_paths:
                 if not _feasible(atoms, env):
@@ -132,7 +201,7 @@ def r_partial_cmp(ctx, rule='R10.1'):
             if outs != {want}:
                 bad.append(((x, y), 'got %s want %s' % (sorted(outs, key=repr), want)))
     ctx.stats['paths'] += len(loop_paths)
-    ctx.check(not bad and bool(loop_paths), rule, 'loop-table', b, b.loc(cbb),
+    ctx.check(not bad and bool(loop_paths), rule, 'loop-table', loop_body, loop_body.loc(loop_where),
               'coordinate loop = product-order automaton (9 cases): Equal absorbs, opposite strict orders => None, otherwise keep',
               'the coordinate loop of partial_cmp deviates from the product-order automaton in case(s) %s' % bad[:4])
     # ---- value stage --------------------------------------------------------------------------------
@@ -166,7 +235,7 @@ def r_partial_cmp(ctx, rule='R10.1'):
     ctx.check(ok, rule, 'value-only-if-used', b, b.loc(vbb), 'values are compared only when use_value()', 'values are compared although use_value() is false')
     # ---- closed list of exits: a verdict is returned only out of the coordinate loop (incomparable) or after the use_value() test (the two
     # tables above / below); a shortcut that answers before (same object, cached verdict, ..) skips the coordinates or the value
-    r_ = b.reach([(0, 0)], avoid=[b.term_point(cbb), b.term_point(uv[0][0])])
+    r_ = b.reach([(0, 0)], avoid=[decided_pt, b.term_point(uv[0][0])])
     ctx.check(not any(p_ in r_ for p_ in ret_points(b)), rule, 'every-exit-is-decided-by-the-tables', b, b.loc(0),
               'partial_cmp answers only after comparing coordinates (None) or after the use_value() test (loop table / value table / no-value exit)',
               'partial_cmp can return a verdict without going through the coordinate comparison or the use_value() test (a shortcut): the verdict ignores coordinates or values')
